@@ -65,6 +65,10 @@ Outer(h) == {
   \* fewer arguments than parameters, the missing parameter's name being bound where the call is made
   Path(Cx(<<En("f", Fn(<<"u", "y">>, Lst(<<U, Y>>))), En("r", Call(Nm("f"), <<h>>))>>), "r"),
   For(<<It("w", XS)>>, Call(Fn(<<"u", "w">>, Lst(<<U, Wv>>)), <<h>>)),
+  \* the special name `partial` of a for: the results so far - read directly, indexed, and as the domain of a nested for
+  For(<<It("i", h)>>, Nm("partial")), For(<<It("i", XS)>>, Lst(<<h, Flt(Nm("partial"), Neg(One))>>)),
+  For(<<It("i", XS)>>, For(<<It("p", Nm("partial"))>>, Lst(<<Nm("p"), h>>))), For(<<It("i", h)>>, For(<<It("p", Nm("partial"))>>, Nm("p"))),
+  Lst(<<For(<<It("i", XS)>>, Nm("partial")), h, Nm("partial")>>),
   \* ranges of strings, the two ends closed differently
   Bin("in", h, Rng(Sa, TRUE, Sb, FALSE)), Bin("in", h, Rng(Sa, FALSE, Sb, TRUE)), Bin("in", X, EL(<<Rng(X, FALSE, Y, TRUE), h>>)), Bin("in", Y, EL(<<h, Rng(X, FALSE, Y, TRUE)>>)) }
 
@@ -84,7 +88,9 @@ Inner == Leaves \cup {
   Call(Fn(<<"u">>, U), <<X>>), Call(Fn(<<"u", "w">>, Bin("sub", U, Wv)), <<Y, X>>), Call(Fn(<<>>, One), <<>>), Call(Fn(<<"u">>, U), <<X, Y>>),
   Bin("in", X, Rng(X, TRUE, Y, FALSE)), Bin("in", X, Rng(X, FALSE, Y, TRUE)), Bin("in", Y, Rng(X, TRUE, Y, FALSE)), Bin("in", Y, Rng(X, FALSE, Y, TRUE)),
   Bin("in", Sb, Rng(Sa, TRUE, Sb, FALSE)), Bin("in", Sb, Rng(Sa, FALSE, Sb, TRUE)), Bin("in", Sa, Rng(Sa, FALSE, Sb, TRUE)), Bin("in", Sa, Rng(Sa, TRUE, Sb, FALSE)),
-  Call(Fn(<<"u", "y">>, Lst(<<U, Y>>)), <<X>>), Call(Fn(<<"y", "u">>, Lst(<<U, Y>>)), <<X>>) }
+  Call(Fn(<<"u", "y">>, Lst(<<U, Y>>)), <<X>>), Call(Fn(<<"y", "u">>, Lst(<<U, Y>>)), <<X>>),
+  For(<<Ir("i", One, Three)>>, If(Bin("eq", Iv, One), One, Bin("mul", Flt(Nm("partial"), Neg(One)), Iv))),
+  For(<<Ir("i", One, Three)>>, For(<<It("p", Nm("partial"))>>, Nm("p"))) }
 
 ExprsQ == Inner \cup UNION {Outer(h) : h \in Inner}
 Exprs  == IF Deep THEN ExprsQ \cup UNION {Outer(g) : g \in UNION {Outer(h) : h \in {X, XS, C, Lst(<<X, Y>>), Bin("add", X, Y), Flt(XS, Bin("gt", Item, One)), For(<<It("i", XS)>>, Iv)}}} ELSE ExprsQ
